@@ -25,6 +25,8 @@ package actor
 import (
 	"sync"
 	"sync/atomic"
+
+	"github.com/tochemey/goakt/v4/internal/verifhook"
 )
 
 const segmentSize = 256
@@ -139,9 +141,11 @@ func NewUnboundedSegmentedMailbox() *UnboundedSegmentedMailbox {
 //   - FIFO order is preserved across segment boundaries.
 func (m *UnboundedSegmentedMailbox) Enqueue(value *ReceiveContext) error {
 	for {
+		verifhook.At("seg.enq.reserve", m, 0, 0)
 		tail := m.tail.Load()
 		idx := tail.writeIdx.Add(1) - 1
 		if idx < segmentSize {
+			verifhook.At("seg.enq.store", m, int64(idx), 0)
 			tail.data[idx].Store(value)
 			atomic.AddInt64(&m.length, 1)
 			return nil
@@ -173,6 +177,7 @@ func (m *UnboundedSegmentedMailbox) Enqueue(value *ReceiveContext) error {
 //   - Must be called from exactly one goroutine. Multiple consumers are not
 //     supported and would violate internal invariants.
 func (m *UnboundedSegmentedMailbox) Dequeue() *ReceiveContext {
+	verifhook.At("seg.deq", m, 0, 0)
 	seg := m.head.Load()
 	for {
 		enq := min(seg.writeIdx.Load(), segmentSize)
@@ -206,6 +211,7 @@ func (m *UnboundedSegmentedMailbox) Dequeue() *ReceiveContext {
 // It is an O(1) snapshot check. Under concurrency it is best‑effort and may
 // briefly lag producers.
 func (m *UnboundedSegmentedMailbox) IsEmpty() bool {
+	verifhook.At("seg.isempty", m, 0, 0)
 	seg := m.head.Load()
 	enq := min(seg.writeIdx.Load(), segmentSize)
 	if seg.deqIdx.Load() < enq {
